@@ -143,6 +143,20 @@ def run(v, tier):
     v.sample({'pre_stack': cases[-1]['stack'], 'ins': cases[-1]['ins'], 'out': cases[-1]['out']})
     cases = c01.impl_bfs(alphabet, 3 if quick else 4, [])
     report(v, c01.validate(v, 'c05-impl', cases, semsize=0), 'implementation-explored transition')
+    # 1b. the well-formedness side conditions of Mu / ESubst / SSubst on terms of the TLC universes (pending substitutions over
+    #     constrained metavariables, binders): the machine's verdict is WFNode, whatever judgement functions the checker uses
+    u = pi2v.universes()
+    wf_terms = u['U1'] + rng.sample(u['U2S'], 300 if quick else 3115)
+    plugs = [pi2v.EV(0), pi2v.SV(0), pi2v.SV(1), pi2v.IMP(pi2v.SV(0), pi2v.MU(0, pi2v.SV(0))), pi2v.APP(pi2v.SV(0), pi2v.SV(0)), pi2v.MV(1, [], [], [0], [], [])]
+    I = lambda op, n: {'op': op, 'n': n, 'ids': [], 'cs': []}
+    wpairs = []
+    for t in wf_terms:
+        st1 = {'stack': [{'k': 'pat', 'p': t}], 'memory': [], 'claims': [], 'phase': 'proof', 'gamma': []}
+        wpairs += [(st1, I('Mu', 0)), (st1, I('Mu', 1))]
+        g = rng.choice(plugs)
+        st2 = {'stack': [{'k': 'pat', 'p': g}, {'k': 'pat', 'p': t}], 'memory': [], 'claims': [], 'phase': 'proof', 'gamma': []}
+        wpairs += [(st2, I('SSubst', rng.choice((0, 1)))), (st2, I('ESubst', rng.choice((0, 1))))]
+    report(v, c01.validate(v, 'c05-wf', machine.replay_steps(wpairs), semsize=0), 'well-formedness condition of Mu / ESubst / SSubst')
     # rule instances from valid premises (the inductive-step family of C01: accepted ModusPonens / Generalization / Substitution / Instantiate)
     report(v, c01.indstep(v, quick, tag='c05', semsize=0), 'rule instance from a valid premise')
     never = sorted(o for o, (a, r) in v.cov.get('steps_by_opcode_accepted_rejected', {}).items() if a == 0 or r == 0)
